@@ -149,6 +149,8 @@ def match_known(v, known):
 # top-level check of one property
 
 def check_property(pid, tier, jobs, seed=0, meta=None, verbose=False, budget_s=None):
+    # second-opinion solver runs: on in the thorough tier, VERIF_CROSSCHECK=0/1 overrides
+    H.CROSSCHECK = os.environ.get('VERIF_CROSSCHECK', '1' if tier == 'thorough' else '0') == '1'
     t0 = time.time()
     os.makedirs(REPLAYS, exist_ok=True)
     rnd = random.Random(seed)
@@ -161,6 +163,8 @@ def check_property(pid, tier, jobs, seed=0, meta=None, verbose=False, budget_s=N
     violations, known_hits, inconclusive = [], [], []
     tot = dict(paths=0, forks=0, checks=0, solver_s=0.0, obligations=0, discharged=0, sat=0, unknown=0, xval_ok=0, xval_inexact=0, xval_skipped=0,
                exc_paths={}, unconfirmed=0)
+    xc = dict(checked=0, agree=0, inconclusive=0, seconds=0.0)
+    xc_bad = []
     samples = []
     jobstats = []
     unreached = []
@@ -170,6 +174,16 @@ def check_property(pid, tier, jobs, seed=0, meta=None, verbose=False, budget_s=N
         for k in ('paths', 'forks', 'checks', 'solver_s', 'obligations', 'discharged', 'sat', 'unknown', 'xval_ok', 'xval_inexact', 'xval_skipped'):
             tot[k] += getattr(r, k)
         tot['unconfirmed'] += len(r.unconfirmed)
+        for k in xc:
+            xc[k] += r.xc[k]
+        for d in r.xc_disagree:
+            n = len(xc_bad)
+            os.makedirs(REPLAYS, exist_ok=True)
+            fn = os.path.join(REPLAYS, "%s-solver-disagreement-%d.smt2" % (pid, n))
+            with open(fn, 'w') as f:
+                f.write(d['smt2'])
+            xc_bad.append(dict(job=d['job'], site=d['site'], verdicts=d['verdicts'], smt2=fn))
+            inconclusive.append("%s: solvers disagree on a discharged obligation at %s: z3-5.1 unsat, %s (%s)" % (d['job'], d['site'], d['verdicts'], fn))
         for k, v in r.exc_paths.items():
             tot['exc_paths'][k] = tot['exc_paths'].get(k, 0) + v
         if len(samples) < 6:
@@ -243,6 +257,10 @@ def check_property(pid, tier, jobs, seed=0, meta=None, verbose=False, budget_s=N
             xval_inexact=tot['xval_inexact'],
             xval_skipped=tot['xval_skipped'],
             unconfirmed_witnesses=tot['unconfirmed'],
+            second_opinion=dict(enabled=H.CROSSCHECK, solvers=[n for n, _ in H.Runner.XC_SOLVERS], queries_rechecked=xc['checked'], agree_unsat=xc['agree'],
+                                no_verdict=xc['inconclusive'], disagreements=xc_bad, seconds=round(xc['seconds'], 1),
+                                rule="the first non-trivially discharged obligation of every job slice and every 250th after it is exported as SMT-LIB2 "
+                                     "(path condition and negated requirement) and re-decided by /usr/bin/z3 4.8.12 and the cvc5 1.0 binary; a 'sat' answer makes the check inconclusive"),
             known_findings_hit=sorted(seen),
             functions_encoded=H.source_hashes(sorted(funcs)),
             jobs=jobstats,
